@@ -26,7 +26,7 @@ ASSUMPTIONS = ["out-of-envelope values are not judged (only acceptance inside th
                "value at the altitude the frame itself reports must not be inferred as BDS60",
                "T1 observes the isXX predicates of the repository itself; their soundness/completeness is what T2/T3 judge",
                "DF20 BDS 6,0 contents are generated with IAS within 10 kt of the Mach-consistent value at the frame's altitude"]
-REQUIRED = ["same_payload_under_another_header_first", "t0_random", "t1_df17", "t1_commb", "t1_empty", "t4_none", "t4_decided50", "t4_decided60", "t4_both", "t5_alt_le0", "t5_metric_header_altitude", "t6_within_0.3kt_inside_the_tolerance", "t6_within_0.3kt_outside_the_tolerance", "t4_reference_within_ulps_of_a_candidate", "t4_mach_zero_ias_exactly_20_decided", "t4_df20_header_altitude_consistent_with_mach_and_ias",
+REQUIRED = ["same_payload_under_another_header_first", "t0_random", "t1_df17", "t1_commb", "t1_empty", "t4_none", "t4_decided50", "t4_decided60", "t4_both", "t5_alt_le0", "t5_metric_header_altitude", "t6_within_0.3kt_inside_the_tolerance", "t6_within_0.3kt_outside_the_tolerance", "t4_reference_within_ulps_of_a_candidate", "t4_mach_zero_ias_exactly_20_decided", "t4_available_ias_of_0_to_2_kt_with_slow_reference", "t4_df20_header_altitude_consistent_with_mach_and_ias",
             "t5_alt_pos"] + \
            ["t2_BDS%s" % r for r in ("10", "17", "20", "30", "40", "44", "45", "50", "60")] + \
            ["t3_BDS%s" % r for r in ("10", "17", "20", "30", "40", "44", "45", "50", "60")]
@@ -430,6 +430,13 @@ def m_t4(ctx, case):
                     # exact number - "differs by more than 20 kt" does not include exactly 20
                     mb = put(put(mb, 25, 34, 0), 14, 23, rng.choice((19, 20, 20, 21)))
                     zero_mach[0] += 1
+            slow = False
+            if st[1] and st[2] and (mb >> 43) & 1 and rng.random() < 0.05:
+                # an aircraft at rest or taxiing: IAS available and 0 / 1 / 2 kt, Mach a few LSB (0.004 each; up to 7 LSB stay
+                # within 20 kt of the IAS) - an AVAILABLE zero is a value, not "no data": its vector (0, 0) takes part in the
+                # arbitration, and against a reference at rest it is the nearest one
+                mb = put(put(mb, 14, 23, rng.choice((0, 0, 0, 1, 2))), 25, 34, rng.randint(1, 7))
+                slow = True
             if st[3]:
                 v = rng.randint(-187, 187)
                 mb = put(put(put(mb, 35, 35, 1), 36, 36, 1 if v < 0 else 0), 37, 45, v & 511)
@@ -461,6 +468,9 @@ def m_t4(ctx, case):
             df20 = code
         spd = rng.choice((rng.uniform(0, 600), 320.0))
         trk = rng.choice((rng.uniform(0, 360), 250.0))
+        if kind >= 0.25 and slow:
+            spd = rng.choice((0.0, 0, rng.uniform(0, 0.5), rng.uniform(0, 30)))
+            ctx.hit("t4_available_ias_of_0_to_2_kt_with_slow_reference")
         alt = rng.choice((rng.uniform(0, 45000), 14000.0, 35000.0))
         if rng.random() < 0.3:
             # the reference IS one of the candidate vectors, up to a few ulps (a tracker feeding back the speed / track it
